@@ -1153,6 +1153,9 @@ func rangeIter(run *Run, x value) iter {
 	switch x := x.(type) {
 	case *symStr:
 		return run.symStrIter(x)
+	case *enumStr:
+		// a finite-choice string is split into its concrete cases before it is iterated
+		return rangeIter(run, x.choices[run.concretize(x.idx, "range over finite-choice string", 64)])
 	case map[value]value:
 		return sortedMapIter(x)
 	case *hashmap:
